@@ -54,6 +54,9 @@ def plan(tier):
                 units.append(('hist', r, i, j))
     for r in roots[:2]:
         units.append(('scale', r))
+    for r in roots:
+        for part in range(HUGE_PARTS):
+            units.append(('scale-huge', r, part, tier != 'quick'))
     return {
         'units': units,
         'rule': 'explicit-state BFS per main encoding: a state is the frozen '
@@ -142,6 +145,65 @@ def run_hist_unit(unit, tier):
     return acc
 
 
+HUGE_PARTS = 4
+
+
+def _big_event(kind, enc, n):
+    if kind == 'preamble':
+        return ['preamble', ('é' + 'x' * 38 + '\n') * (n // 40), enc, 4,
+                None, None]
+    return ['meta', {'k': ['é' * 20] * (n // 130)}, enc]
+
+
+def run_huge_unit(unit, tier):
+    """Megabyte-sized preamble / metadata sections whose encoding is only
+    INHERITED (own encoding None), from one state per distinct scope stack
+    of the closed graph."""
+    _, root, part, thorough = unit
+    acc = Acc()
+    g = scope_graph(root, scope_events(wrgraph.SCOPE_ENCODINGS), 9,
+                    state_cap=400)
+    reps = {}
+    for key, hist in sorted(g['seen'].items(),
+                            key=lambda kv: (len(kv[1]), repr(kv[1]))):
+        calls0 = [list(c) for c in hist]
+        prev, scope, d = spec.track(calls0, root)
+        kinds = tuple(k for k in ('preamble', 'meta')
+                      if k in spec.legal_kinds(prev, d))
+        if kinds:
+            reps.setdefault((tuple(scope[:d + 1]) if isinstance(
+                scope, (list, tuple)) else repr(scope), kinds), calls0)
+    items = sorted(reps.items(), key=repr)
+    sizes = [1300000] + ([2600000, 5000000] if thorough else [])
+    encs = [None] + (['latin-1', 'utf-16'] if thorough else [])
+    for idx, ((sc, kinds), calls0) in enumerate(items):
+        if idx % HUGE_PARTS != part:
+            continue
+        for kind in kinds:
+            for enc in encs:
+                for n in sizes:
+                    calls = calls0 + [_big_event(kind, enc, n)]
+                    viols, ex = check_history(calls, root)
+                    acc.evals += 1
+                    acc.transitions += 1
+                    acc.validated += 1
+                    acc.nontrivial += 1
+                    for k_, msg in viols:
+                        acc.violation(k_ + ':scale', '%s\nhistory %r + %d-'
+                                      'byte %s with encoding %r'
+                                      % (msg[:600], [c[:2] for c in calls0],
+                                         n, kind, enc),
+                                      {'kind': 'scale', 'root': root,
+                                       'hist': to_jsonable(calls0),
+                                       'skind': kind, 'enc': enc, 'n': n})
+                    acc.outcome('ok' if not viols else 'violation')
+    acc.states = len(items)
+    acc.sample({'scale': 'megabyte sections with inherited encoding from '
+                         '%d distinct scope stacks' % len(items),
+                'root': root}, 1)
+    return acc
+
+
 def run_scale_unit(unit, tier):
     """From every canonical state of the closed graph: a LARGE preamble /
     metadata section (around the 1024 / 8192 / 65536 thresholds) with each
@@ -187,6 +249,8 @@ def run_scale_unit(unit, tier):
 
 
 def run_unit(unit, tier):
+    if unit[0] == 'scale-huge':
+        return run_huge_unit(unit, tier)
     if unit[0] == 'scale':
         return run_scale_unit(unit, tier)
     if unit[0] == 'hist':
@@ -239,11 +303,7 @@ def run_unit(unit, tier):
 def replay(payload):
     if payload.get('kind') == 'scale':
         n, enc = payload['n'], payload['enc']
-        if payload['skind'] == 'preamble':
-            ev = ['preamble', ('é' + 'x' * 38 + '\n') * (n // 40), enc, 4,
-                  None, None]
-        else:
-            ev = ['meta', {'k': ['é' * 20] * (n // 130)}, enc]
+        ev = _big_event(payload['skind'], enc, n)
         viols, ex = check_history(from_jsonable(payload['hist']) + [ev],
                                   payload['root'])
         return [{'key': k + ':scale', 'msg': m} for k, m in viols]
